@@ -154,3 +154,66 @@ def get_document_contract():
                 statement="the document bytes are loaded with content_type == Content-Type header up to the first ';' (else the "
                           "type guessed from the URL); HTTP errors give a GeneratorError", props=["C17", "C06"])
     return FnContract("openapi_python_client:_get_document", [Case("url-source", make, [cl], raises=(), props=["C17", "C06"])])
+
+
+def load_contract():
+    """_load_yaml_or_json (C06: any bytes are a document or a diagnostic; C17: the JSON media type selects the JSON reader,
+    everything else the YAML reader).  Library behaviour assumed: bytes.decode() returns text or raises UnicodeDecodeError;
+    json.loads returns data or raises json.JSONDecodeError; ruamel's YAML().load returns data or raises a YAMLError."""
+    def make(I):
+        import json
+        import openapi_python_client as opc
+        from ruamel.yaml import YAML
+        from ruamel.yaml.error import YAMLError
+        S = z3.StringSort()
+        calls = []
+        data = SOpaque("data", cls=bytes)
+
+        def decode(I2, a, k):
+            if I2.branch_free():
+                I2.raise_(UnicodeDecodeError, "invalid start byte")
+            return SStr(z3.Const("decoded_text", S))
+        data.getattr = lambda I2, name: SFunc("model", decode) if name == "decode" else (_ for _ in ()).throw(Unsupported(name))
+
+        def loads(I2, a, k):
+            calls.append(("json", a[0]))
+            if I2.branch_free():
+                I2.raise_(json.JSONDecodeError, "Expecting value")
+            return SOpaque("json document")
+
+        def yaml_ctor(I2, a, k):
+            def load(I3, a3, k3):
+                calls.append(("yaml", a3[0]))
+                if I3.branch_free():
+                    I3.raise_(YAMLError, "bad yaml")
+                return SOpaque("yaml document")
+            return SOpaque("YAML()", attrs={"load": SFunc("model", load)})
+        I.lib = dict(I.lib)
+        I.lib[json.loads] = loads
+        I.lib[YAML] = yaml_ctor
+        ct = [None, "application/json", SStr(z3.Const("content_type", S))][I.choose(3)]
+        if isinstance(ct, SStr):
+            I.assume(ct.t != z3.StringVal("application/json"))
+        return SFunc("pyfunc", opc._load_yaml_or_json), [data, ct], {}, {"calls": calls, "ct": ct, "data": data}
+
+    def post(ctx):
+        from openapi_python_client.parser.errors import GeneratorError
+        i = ctx.inputs
+        v = ctx.value
+        is_json = i["ct"] == "application/json"
+        kinds = [c[0] for c in i["calls"]]
+        if any(k != ("json" if is_json else "yaml") for k in kinds) or len(kinds) > 1:
+            return False
+        if isinstance(v, SObj) and v.cls is GeneratorError:
+            return True
+        if not kinds:
+            return False                     # no reader ran and no diagnostic
+        if not is_json and i["calls"][0][1] is not i["data"]:
+            return False
+        return isinstance(v, SOpaque) and v.name == ("json document" if is_json else "yaml document")
+
+    cl = Clause("document-or-diagnostic", post,
+                statement="the JSON media type selects the JSON reader, anything else the YAML reader; the result is what that reader "
+                          "returned or a GeneratorError -- whatever the reader or the decoding of the bytes raises",
+                props=["C06", "C17"])
+    return FnContract("openapi_python_client:_load_yaml_or_json", [Case("any-bytes", make, [cl], raises=(), props=["C06", "C17"])])
